@@ -880,6 +880,8 @@ class StmtMixin(object):
                 if isinstance(idx, Fin):
                     idx = st.folder().restrict(idx)
                 if isinstance(idx, Const):
+                    if getattr(o, "module_table", False) and self.current_func is not None:
+                        self.event("global_write", target, module, st, what="store into a module-level table")
                     o.set(idx.v, TRUE, value)
                     return
                 if isinstance(idx, Fin):
@@ -1269,6 +1271,8 @@ class StmtMixin(object):
         else:
             c = ca
         M = State(self.space)
+        M.modenvs = dict(A.modenvs)
+        M.modenvs.update(B.modenvs)
         M.pc = list(A.pc[:L])
         # domains: union, in registry order
         for s in set(A.dom) | set(B.dom):
@@ -1377,6 +1381,36 @@ def _as_load(t):
 
 class Evaluator(Interp, ExprMixin, CallMixin, StmtMixin):
     """The abstract interpreter (E5)."""
+
+    def module_env(self, st, module):
+        """Abstractly executes a module's import-time initialisation (top-level statements other
+        than imports, definitions and the __main__ guard) for tables that are computed rather than
+        literal.  Cached per state."""
+        if module.name in st.modenvs:
+            return st.modenvs[module.name]
+        env = self.alloc(st, EnvObj(None, module))
+        st.heap[env.id].captured = True
+        st.modenvs[module.name] = env
+        saved = self.current_func
+        self.current_func = None
+        try:
+            for stmt in module.tree.body:
+                if isinstance(stmt, (ast.Import, ast.ImportFrom, ast.FunctionDef, ast.ClassDef, ast.Try)):
+                    continue
+                if isinstance(stmt, ast.Expr) and isinstance(stmt.value, ast.Constant):
+                    continue
+                if isinstance(stmt, ast.If) and isinstance(stmt.test, ast.Compare) and isinstance(stmt.test.left, ast.Name) and stmt.test.left.id == "__name__":
+                    continue
+                try:
+                    self.exec_stmt(stmt, st, env)
+                except Dead:
+                    pass
+        finally:
+            self.current_func = saved
+        for v in st.heap[env.id].vars.values():
+            if isinstance(v, Ref) and v.id in st.heap and st.heap[v.id].kind in ("map", "list", "set"):
+                st.heap[v.id].module_table = True
+        return env
 
     havoc_depth = 0
     havoc_allowed = None
